@@ -50,9 +50,17 @@ theorem scrypt_unwrap_no_kdf (P : Prims) (E : GoTie.ScryptEnv P) (pw : Bytes) (m
       GoTie.resClass r = (unwrapScrypt P pw maxWF s).1 :=
   GoTie.scrypt_unwrap_no_kdf P E pw maxWF s h
 
+/-- when the model derives a key with work factor `logN`: `logN ≤ maxWF` (a fact of the model), AND the translated
+    `unwrap` looks at `scrypt.Key` only at cost `2^logN`, r = 8, p = 1, 32 bytes — replace the KDF by ANY function that
+    agrees with it at those arguments and the translated code cannot tell (the part about the code; the first form
+    of this theorem kept only the model half) -/
 theorem scrypt_unwrap_kdf_bounded (P : Prims) (E : GoTie.ScryptEnv P) (pw : Bytes) (maxWF : Nat) (s : Format.Stanza)
-    (logN : Nat) (h : (unwrapScrypt P pw maxWF s).2 = [logN]) : logN ≤ maxWF :=
-  (GoTie.scrypt_unwrap_kdf_args P E pw maxWF s logN h).1
+    (logN : Nat) (h : (unwrapScrypt P pw maxWF s).2 = [logN]) :
+    logN ≤ maxWF ∧
+    ∀ K', (∀ salt, K' pw salt ((2 : Int) ^ logN) 8 1 32 = E.K pw salt ((2 : Int) ^ logN) 8 1 32) →
+      Extracted.age_ScryptIdentity_unwrap E.D K' E.A ⟨pw, Int.ofNat maxWF⟩ (GoTie.toGoStanza s) =
+      Extracted.age_ScryptIdentity_unwrap E.D E.K E.A ⟨pw, Int.ofNat maxWF⟩ (GoTie.toGoStanza s) :=
+  GoTie.scrypt_unwrap_kdf_args P E pw maxWF s logN h
 
 
 /-- The code itself (DESIGN.md §5.3): the header parser as TRANSLATED from the source returns
